@@ -1290,7 +1290,12 @@ def _emitter_samples(ctx):
                decl("StaticMethod", "reset", [], ret="void"),
                decl("StaticMethod", "make", [D, ("scale", "double", (), None), ("s", "K", ("ns",), "ns::K( 1,  2 )")]), decl("StaticMethod", "make", [])]
     # (`s` is left out at arity 2 and its name occurs inside the supplied `scale`: names are compared whole)
+    # the class has an enum `Mode` of its own and takes, besides it, the enum of the same name that another class declares
+    cls["enums"] = [SampleObj(__kind__="Enum", name="Mode", parent=cls)]
+    EO, EK = ("m", "Mode", ("ns", "Other"), None), ("m", "Mode", ("ns", "K"), None)
+    statics += [decl("StaticMethod", "spick", [EO], ret="void")]
     meths = [decl("Method", "at", [("i", "size_t", (), None)]), decl("Method", "size", [], ret="size_t"), decl("Method", "span", [D], ret=("double", "size_t")),
+             decl("Method", "pick", [EO], ret="void"), decl("Method", "own", [EK], ret="void"),
              decl("Method", "tag", [("label", "string", (), None, {"is_const": "const", "is_ref": "&"}), ("plain", "string", (), None)], ret="void"),
              decl("Method", "at", [("i", "size_t", (), None), ("j", "size_t", (), None), ("c", "double", (), "0.0")]), decl("Method", "at", [])]
     # (the first declaration is repeated, as happens when two interface files of a module share a helper: the list keeps both)
@@ -1307,12 +1312,12 @@ def _emitter_samples(ctx):
         return c
     # a constructor all of whose parameters are defaulted (its arity-0 overload still passes both defaults), and one with a defaulted tail
     cls["ctors"] = [ctor([("a", "int", (), "1"), ("b", "double", (), "2.5")]),
-                    ctor([D, ("y", "double", (), None), ("lbl", "string", (), '"k"')])]
+                    ctor([D, ("y", "double", (), None), ("lbl", "string", (), '"k"')]), ctor([EO, ("z", "double", (), None), ("w", "double", (), None)])]
     me = sample_wrapper(ctx, module_name="mod", wrapper_id=3, wrapper_map={}, use_boost_serialization=False, __kind__="MatlabWrapper")
     return me, cls, statics, meths, funcs
 
 
-def rule_call_sites_by_evaluation(ctx, rep: Report, rid="I10", returns=False):
+def rule_call_sites_by_evaluation(ctx, rep: Report, rid="I10", returns=False, guards=False):
     """Every branch of a generated .m function passes the id under which the routine of *that* overload is registered: the entry
     of the id map names the member the branch belongs to and takes as many arguments as the branch's guard counts.  Decided by
     running the emitters for static methods, methods and free functions (the analyser's own interpreter; the sample
@@ -1323,12 +1328,14 @@ def rule_call_sites_by_evaluation(ctx, rep: Report, rid="I10", returns=False):
     methods = _all_methods(prog, ci)
     classes = program_classes(prog, ["ArgumentList", "Argument", "MatlabWrapper", "Typename", "Type", "ReturnType"])
     runs = []
-    for which in ("wrap_static_methods", "wrap_class_methods", "wrap_global_function"):
+    for which in ("wrap_static_methods", "wrap_class_methods", "wrap_global_function") + (("wrap_class_constructors",) if guards else ()):
         fn = prog.method("MatlabWrapper", which)
         ps = func_params(fn)
         me, cls, statics, meths, funcs = _emitter_samples(ctx)
         try:
-            if which == "wrap_static_methods":
+            if which == "wrap_class_constructors":
+                env = dict(zip(ps, [me, "ns", cls, "", list(cls["ctors"]), False]))
+            elif which == "wrap_static_methods":
                 env = dict(zip(ps, [me, "ns", cls, [False]]))
             elif which == "wrap_class_methods":
                 env = dict(zip(ps, [me, "ns", cls, list(meths), [False]]))
@@ -1359,6 +1366,7 @@ def rule_call_sites_by_evaluation(ctx, rep: Report, rid="I10", returns=False):
         rep.add(rid, "the .m emitters evaluated on sample declarations", True, "not evaluable; I3-I8 decide by structure", f"{ci.mod.rel}:0", nontrivial=False)
         return
     shape_probs: List[str] = []
+    guard_probs: List[str] = []
     for which, fn, text, me in runs:
         wm = me.get("wrapper_map") if isinstance(me.get("wrapper_map"), dict) else {}
         probs = []
@@ -1392,15 +1400,20 @@ def rule_call_sites_by_evaluation(ctx, rep: Report, rid="I10", returns=False):
                 elif count is not None and n_args != count:
                     probs.append(f"{cur}: the branch for {count} argument(s) passes id {id_}, whose routine was built for the overload with {n_args}")
         shape_probs += _output_shape_problems(text, wm)
+        guard_probs += _guard_class_problems(text, wm)
         if sorted(seen_ids) != sorted(wm):
             probs.append(f"ids passed by the .m text {sorted(seen_ids)} / ids registered {sorted(wm)}")
         if len(set(seen_ids)) != len(seen_ids):
             probs.append(f"an id is passed by two branches: {sorted(seen_ids)}")
-        if returns:
+        if returns or guards:
             continue
         rep.add(rid, f"{which}:each branch passes the id registered for its own overload", not probs and bool(seen_ids),
                 f"{probs[:3]}: the `case` that the branch reaches runs the routine of another overload (argument count, unwrapping and call belong to "
                 f"that one), or of none", f"{ci.mod.rel}:{fn.lineno}")
+    if guards:
+        rep.add(rid, "the class test of a parameter of class or enum type names the MATLAB class of the declared type", not guard_probs,
+                f"{guard_probs[:4]}: a value of the declared type is turned away by the .m file, and a value of the other class is let through and read "
+                f"by the routine as the declared one", f"{ci.mod.rel}:{runs[0][1].lineno}")
     if returns:
         rep.add(rid, "the gateway call of every branch is assigned to as many outputs as its overload returns", not shape_probs,
                 f"{shape_probs[:4]}: a void routine assigns no output (MATLAB reports `output argument not assigned` after the C++ call has run), "
@@ -1428,6 +1441,34 @@ def _output_shape_problems(text: str, wm: dict) -> List[str]:
         if got != n_out:
             kind = ov.get("__kind__", "").replace("Instantiated", "")
             out.append(f"{kind} {ov['name']}({', '.join(a['name'] for a in ov['args']['args_list'])}) returns {n_out} value(s), the call is assigned to {got} output(s)")
+    return out
+
+
+def _guard_class_problems(text: str, wm: dict) -> List[str]:
+    """For every branch: the `isa(varargin{k}, '<class>')` test of a parameter whose declared type is written with its namespaces
+    (a class, an enum of a class) names exactly that type, `::` turned into `.`."""
+    out = []
+    pending: List[Tuple[int, str]] = []
+    for line in text.splitlines():
+        tests = [(int(k), c) for k, c in re.findall(r"isa\(varargin\{(\d+)\}\s*,\s*'([^']*)'\)", line)]
+        if tests:
+            pending = tests
+        g_ = re.search(r"\b\w+_wrapper\((\d+)\s*,", line)
+        if not g_:
+            continue
+        ent = wm.get(int(g_.group(1)))
+        objs = [x for x in (ent or ()) if isinstance(x, dict) and "args" in x and "name" in x]
+        if objs:
+            ov = objs[-1]
+            al = ov["args"]["args_list"]
+            for k, got in pending:
+                if 0 < k <= len(al):
+                    tn = al[k - 1]["ctype"]["typename"]
+                    ns_ = [n for n in tn["namespaces"] if n]
+                    if ns_ and got != ".".join(ns_ + [tn["name"]]) and got not in ("double", "numeric", "char", "logical"):
+                        kind = ov.get("__kind__", "").replace("Instantiated", "")
+                        out.append(f"{kind} {ov['name']}: parameter {k} is declared {'::'.join(ns_ + [tn['name']])}, the guard tests isa(.., '{got}')")
+        pending = []
     return out
 
 
